@@ -26,7 +26,11 @@
 
 Verdict keys: <kind>:<class> with kind in render-panic | render-crash | render-hang | fits |
 pct-range | pct-monotone | bar-cells | name | conformance, class in step>size | size<0 | step<0 |
-ok (for ok the rung and the differing fields are appended)."""
+ok (for ok the rung and the differing fields are appended, e.g. fits:ok:rung9:bar+w).  Outside the
+class ok (fileStep > fileSize > 0, negative size: the range the clamp of commit 46f99a5 covers) only
+the C20 conditions are judged on what the code wrote, not equality with the model's clamped line.
+On the tree before 46f99a5 the check reports render-panic:step>size, pct-range:step>size,
+render-hang:step>size (colour bar), render-panic:size<0, pct-range:size<0, fits:size<0."""
 import os, json, re, threading, time
 from concurrent.futures import ThreadPoolExecutor
 import vlib
@@ -112,7 +116,6 @@ def _judge_files(files, res, v, cov, label):
         for b in bads:
             nbad += 1
             i = b["line"] - 1
-            run = vlib.run_of(ev, i, reset="new")
             # the run up to and including the offending call
             lo = i
             while lo > 0 and ev[lo].get("e") != "new":
